@@ -20,18 +20,33 @@
 //	    keep type/tag/tagger/message, unselected and remote refs are untouched;
 //	(5) `git check-attr filter` in each rewritten commit says lfs for imported
 //	    paths and not lfs for exported ones;
+//	(5b) a path that was and still is an LFS pointer and that Git treated as LFS
+//	    before is still treated as LFS (the rewritten .gitattributes keeps the
+//	    existing entries);
 //	(6) export after import of the same selection restores the original blobs.
+//
+// Every violation carries Sig{symptom, trigger}; the trigger is the single
+// special coordinate the generator put into the case (exotic commit feature,
+// size == --above threshold, --fixup attribute variant, nested .gitattributes,
+// tag of a tag, LFS file that only a merge commit introduces, --exclude=dir/**
+// over an existing LFS file) when the failing commit/path carries it, else the
+// mode / path kind. VERIF_C12_CASE=<i> runs one case, VERIF_C12_KEEP=1 keeps
+// its scratch directory (debugging / replay aid).
 //
 // Weakest-reading choices (not judged): reflogs, refs/original, unreachable
 // objects, commit ids, the working tree after migrate, whether a local branch
 // that was NOT selected but points into the rewritten range is moved or left,
 // trailing newlines of annotated tag messages (counted), raw files that become
-// "tracked" by a path entry that --above added for another commit.
+// "tracked" by a path entry that --above added for another commit; LFS objects
+// that export's final prune removes although a kept pointer still names them
+// are judged only when no commit on a remote references them (the generator
+// pushes commits without uploading objects).
 package main
 
 import (
 	"fmt"
 	"math/rand"
+	"os"
 	"path/filepath"
 	"runtime"
 	"sort"
@@ -227,6 +242,9 @@ func plan(run *evid.Run, idx int) *caseSpec {
 		// out of the judged range.
 		s.Remote = false
 	}
+	if s.Remote && s.RefSel == "default" {
+		s.RefSel = "default-remote"
+	}
 	s.HeadPick = r.Intn(100)
 	return s
 }
@@ -359,7 +377,11 @@ func selArgs(s selection) []string {
 func runCase(run *evid.Run, idx int) *caseCtx {
 	spec := plan(run, idx)
 	env := sbx.New()
-	defer env.Cleanup()
+	if os.Getenv("VERIF_C12_KEEP") == "" {
+		defer env.Cleanup()
+	} else {
+		fmt.Fprintf(os.Stderr, "case %d kept in %s (%s)\n", idx, env.Root, spec.class())
+	}
 	c := &caseCtx{run: run, env: env, spec: spec, extra: map[string][]string{}}
 	g := NewGen(env, "work", run.Seed*7919+int64(idx), spec.Gen)
 	c.gen = g
@@ -390,6 +412,15 @@ func runCase(run *evid.Run, idx int) *caseCtx {
 	head := "main"
 	if spec.HeadPick < 35 && len(g.BrO) > 1 {
 		head = g.BrO[1+spec.HeadPick%(len(g.BrO)-1)]
+	}
+	if spec.Mode == "import-no-rewrite" {
+		// --no-rewrite needs a raw, attribute-tracked file on the checked-out branch
+		for _, b := range append([]string{head}, g.BrO...) {
+			if len(g.RawDatPaths(g.C[g.Br[b]].Tree)) > 0 {
+				head = b
+				break
+			}
+		}
 	}
 	env.MustGit(g.Dir, "symbolic-ref", "HEAD", "refs/heads/"+head)
 	env.MustGit(g.Dir, "reset", "-q", "--hard")
@@ -475,16 +506,21 @@ func runCase(run *evid.Run, idx int) *caseCtx {
 
 func main() {
 	run := evid.New("C12", "exploration")
-	defer sbx.RemoveBase()
+	if os.Getenv("VERIF_C12_KEEP") == "" {
+		defer sbx.RemoveBase()
+	}
 	run.Rule = "seeded repositories built with git plumbing (linear, branching, 2-parent and octopus merges, orphan roots, lightweight / annotated / tag-of-tag tags, symlinks and executables whose names match the selections, empty files, gitlinks, nested .gitattributes, *.bin files already in LFS through the clean filter, raw files under LFS attributes, distinct author/committer identities, dates and zones, multi-line messages, one exotic commit feature in a third of the cases) x one migrate command: import --include/--exclude (forms *.ext, dir/*.ext, exact path, dir/**), import --above, import (all files), import --fixup (attribute variants), import --no-rewrite, export --include/--exclude, export after import; ref selection in {--everything, current branch, current branch minus remote refs, --include-ref/--exclude-ref, positional branches}. Class = (mode, ref selection, pattern forms, special coordinate)."
 	run.Assumptions = []string{
 		"pattern semantics of --include/--exclude are those of .gitattributes (man page); only the forms *.ext, dir/*.ext, exact anchored path, dir/** are generated",
 		"the generator creates no pointer look-alikes and no non-canonical pointers; LFS objects of the original history are all in the local store",
 		"a local branch that was not selected but points into the rewritten range may be moved or left; tag messages are compared modulo trailing newlines; reflogs, refs/original, unreachable objects, commit ids and the working tree are not judged",
+		"export: an LFS object missing afterwards is judged only if no commit reachable from a remote-tracking ref references it (export ends with a prune)",
 		"git 2.39.5",
 	}
-	n := run.N(12, 120)
-	run.SetMinEvaluations(n / 2)
+	n := run.N(36, 240)
+	if os.Getenv("VERIF_C12_CASE") == "" {
+		run.SetMinEvaluations(n / 2)
+	}
 	workers := runtime.NumCPU()
 	if workers > n {
 		workers = n
@@ -508,8 +544,14 @@ func main() {
 			}
 		}()
 	}
+	only := -1
+	if v := os.Getenv("VERIF_C12_CASE"); v != "" { // debugging aid: run a single case index of the tier
+		fmt.Sscan(v, &only)
+	}
 	for i := 0; i < n; i++ {
-		jobs <- i
+		if only < 0 || i == only {
+			jobs <- i
+		}
 	}
 	close(jobs)
 	wg.Wait()
